@@ -1971,8 +1971,10 @@ AREAS['broadcast'] = dict(out='GenSrcBroadcast', files=[BBD, BRD, BTX, BRX, BIT]
       vars={'cursor': 'i64'}, opaque=[GET_LEN], ty='i64'),
     F(BRX, BRXM, 'receive_next', 'src_bc_rx_is_padding', frag=('cond', 'if', 2),
       opaque=[('self . buffer . get :: < i32 > ( record_descriptor :: type_offset ( record_offset ) )', 'type_word', 'i32')]),
+    # since fix a146cb8 (receive_next reads the header words, validates, then uses them) the length word at offset 0 is the
+    # local `length_after_padding`, read before the second validation: an input of the fragment
     F(BRX, BRXM, 'receive_next', 'src_bc_rx_next_record_after_padding', frag=('selfassign', 'next_record', '+='),
-      self=['next_record'], opaque=[GET_LEN], ty='i64'),
+      self=['next_record'], params=['length_after_padding'], vars={'length_after_padding': 'i32'}, ty='i64'),
 ])
 
 CRD = 'CountersReader'
